@@ -72,6 +72,9 @@ type runner struct {
 	preNodeHandlerManager   *preNodeHandlerManager
 	preBranchHandlerManager *preBranchHandlerManager
 
+	// nodes (END included) whose input is assembled from mapped fields / static values
+	mappedInput map[string]bool
+
 	checkPointer         *checkPointer
 	interruptBeforeNodes []string
 	interruptAfterNodes  []string
@@ -794,10 +797,18 @@ func (r *runner) initChannelManager(isStream bool) *channelManager {
 
 	chs := make(map[string]channel)
 	for ch := range r.chanSubscribeTo {
-		chs[ch] = builder(r.controlPredecessors[ch], r.dataPredecessors[ch], r.chanSubscribeTo[ch].action.inputZeroValue, r.chanSubscribeTo[ch].action.inputEmptyStream)
+		zeroValue, emptyStream := r.chanSubscribeTo[ch].action.inputZeroValue, r.chanSubscribeTo[ch].action.inputEmptyStream
+		if r.mappedInput[ch] {
+			zeroValue, emptyStream = zeroValueFromGeneric[map[string]any], emptyStreamFromGeneric[map[string]any]
+		}
+		chs[ch] = builder(r.controlPredecessors[ch], r.dataPredecessors[ch], zeroValue, emptyStream)
 	}
 
-	chs[END] = builder(r.controlPredecessors[END], r.dataPredecessors[END], r.outputZeroValue, r.outputEmptyStream)
+	endZeroValue, endEmptyStream := r.outputZeroValue, r.outputEmptyStream
+	if r.mappedInput[END] {
+		endZeroValue, endEmptyStream = zeroValueFromGeneric[map[string]any], emptyStreamFromGeneric[map[string]any]
+	}
+	chs[END] = builder(r.controlPredecessors[END], r.dataPredecessors[END], endZeroValue, endEmptyStream)
 
 	dataPredecessors := make(map[string]map[string]struct{})
 	for k, vs := range r.dataPredecessors {
